@@ -301,6 +301,7 @@ class ExprMixin2:
         if (v.k == "ref" and v.cls == "dict") or (v.k == "val" and v.cls == "dict"):
             r = self.as_ref(v, st)
             kb = box(self.materialize(i, st))
+            st.key_term(kb)
             has = z3.Select(st.read("dict.has", r), kb)
             out = []
             for s, b in self.branch(st, has, "key in dict"):
@@ -604,6 +605,7 @@ class ExprMixin2:
         if b.k == "bytes":
             return z3.Contains(b.t, a.t if a.k == "bytes" else z3.Unit(z3.Int2BV(self.as_int(a), 8)))
         if b.k in ("ref", "val") and b.cls == "dict":
+            st.key_term(box(self.materialize(a, st)))
             return z3.Select(st.read("dict.has", self.as_ref(b, st)), box(self.materialize(a, st)))
         if b.k in ("ref", "val") and b.cls == "set":
             return z3.Select(st.read("set.has", self.as_ref(b, st)), box(self.materialize(a, st)))
